@@ -61,6 +61,8 @@ type World struct {
 	cur             *pathCtxt // path being enumerated (event callbacks only)
 	fwdMemo         map[*ssa.Function][]*ssa.Call
 	apFlowMemo      *applyFlowVerdict
+	p6Scope         map[*ssa.Function]bool
+	psEvents        bool // the next enumPaths labels events per path (labels use CalleeOnPath / ResolveOnPath)
 	pureMemo        map[*ssa.Function]bool
 	inlineEnv       []map[*ssa.Parameter]string
 	// enumPaths records the branch taken at every If as "?T:<cond>" / "?F:<cond>"
